@@ -1,7 +1,23 @@
+import ElvisVerif.Model.Codec.Arp
+import ElvisVerif.Model.Codec.Dns
+import ElvisVerif.Model.Codec.Dhcp
 import Driver.Common
 import Driver.C08
-/-! Line-protocol handlers for C14 (sub-commands `c14` / `c14-*`). -/
+/-!
+Line-protocol handlers for the ARP / DNS / DHCP codec streams of C14 and C08
+(sub-commands `c14-arp`, `c14-dns`, `c14-dhcp`: malformed stream; `c14-rt-arp`, `c14-rt-dns`,
+`c14-rt-dhcp`: round-trip stream).  Both streams use the same op lines:
+
+* `dec <hex>`        decode; answer `ok <fields> consumed=<n> reenc=<hex>` | `err <Kind>` | `panic:…`
+* `enc <fields> <rest-hex>`  build a value, encode it, decode `encoding ++ rest`;
+                     answer `<encoding-hex> <answer of dec>`
+* `demux <hex>`      (arp, dhcp) the protocol's `demux` on that datagram
+* `sdemux <fetch> <hex> <pool>` (dhcp) `DhcpServer::demux`, `fetch` = `-` or the address `fetch_ip`
+  yields (`pool` is for the harness only)
+* `qname <hex>`      (dns) `DnsQuestion::query_name`
+-/
 namespace Driver.C14
+open Elvis.CodecB
 
 /-- decoder totality for IPv4 / UDP / TCP (`c14-ipv4`, `c14-udp`, `c14-tcp`): the decode ops of
     `Driver/C08.lean` on the malformed stream -/
@@ -10,7 +26,191 @@ def dispatchCodecA (sub : String) (i o : IO.FS.Stream) : Option (IO Unit) :=
     some (Driver.loop i o Driver.C08.step false)
   else none
 
+def errStr (e : DecErr) : String :=
+  match e with
+  | .panic s => s
+  | e => "err " ++ e.toString
+
+def sp (xs : List String) : String := " ".intercalate xs
+
+/-! ARP -/
+def showArp (p : Arp.ArpPacket) : String :=
+  sp [toString p.htype, toString p.ptype, toString p.hlen, toString p.plen, toString p.oper.toNat,
+      toString p.senderMac, toString p.senderIp, toString p.targetMac, toString p.targetIp]
+
+def arpDec (bs : Bytes) : String :=
+  match Arp.fromBytes bs with
+  | .ok (p, r) => s!"ok {showArp p} consumed={bs.length - r.length} reenc={Driver.toHex (Arp.build p)}"
+  | .error e => errStr e
+
+def arpStep (_ : Unit) (ws : List String) : Unit × String :=
+  match ws with
+  | ["case", id] => ((), s!"case {id}")
+  | ["dec", h] => match Driver.parseHex h with
+    | some bs => ((), arpDec bs)
+    | none => ((), "bad-op")
+  | ["demux", h] => match Driver.parseHex h with
+    | some bs => ((), match Arp.demux bs with
+        | .ok .dropped => "dropped"
+        | .ok (.learned ip mac) => s!"learned {ip} {mac}"
+        | .error e => errStr e)
+    | none => ((), "bad-op")
+  | ["enc", a, b, c, d, o, sm, si, tm, ti, rest] =>
+    match a.toNat?, b.toNat?, c.toNat?, d.toNat?, o.toNat?, sm.toNat?, si.toNat?, tm.toNat?, ti.toNat?,
+          Driver.parseHex rest with
+    | some a, some b, some c, some d, some o, some sm, some si, some tm, some ti, some rest =>
+      if o = 1 ∨ o = 2 then
+        let p : Arp.ArpPacket := {
+          htype := a, ptype := b, hlen := c, plen := d,
+          oper := if o = 1 then .request else .reply, senderMac := sm, senderIp := si,
+          targetMac := tm, targetIp := ti }
+        let e := Arp.build p
+        ((), s!"{Driver.toHex e} {arpDec (e ++ rest)}")
+      else ((), "bad-op")
+    | _, _, _, _, _, _, _, _, _, _ => ((), "bad-op")
+  | _ => ((), "bad-op")
+
+/-! DNS -/
+def showDns (m : Dns.DnsMessage) : String :=
+  sp [toString m.header.id, toString m.header.properties, toString m.header.qdcount,
+      toString m.header.ancount, toString m.header.nscount, toString m.header.arcount,
+      Driver.toHex m.question.qname, toString m.question.qtype, toString m.question.qclass,
+      Driver.toHex m.answer.name, toString m.answer.recType, toString m.answer.cls,
+      toString m.answer.ttl, toString m.answer.rdlength, Driver.toHex m.answer.rdata]
+
+def dnsDec (bs : Bytes) : String :=
+  match Dns.fromBytes bs with
+  | .ok (m, r) => s!"ok {showDns m} consumed={bs.length - r.length} reenc={Driver.toHex (Dns.toMessage m)}"
+  | .error e => errStr e
+
+def dnsStep (v0 : Bool) (_ : Unit) (ws : List String) : Unit × String :=
+  match ws with
+  | ["case", id] => ((), s!"case {id}")
+  | ["dec", h] => match Driver.parseHex h with
+    | some bs => ((), dnsDec bs)
+    | none => ((), "bad-op")
+  | ["qname", h] => match Driver.parseHex h with
+    | some bs => ((), match (if v0 then Dns.queryNameV0 else Dns.queryName) (Dns.newQuestion bs) with
+        | .ok n => "ok " ++ Driver.toHex n
+        | .error e => errStr e)
+    | none => ((), "bad-op")
+  | ["enc", id, pr, qd, an, ns, ar, qn, qt, qc, nm, ty, cl, ttl, rdl, rd, rest] =>
+    match id.toNat?, pr.toNat?, qd.toNat?, an.toNat?, ns.toNat?, ar.toNat?, Driver.parseHex qn,
+          qt.toNat?, qc.toNat?, Driver.parseHex nm with
+    | some id, some pr, some qd, some an, some ns, some ar, some qn, some qt, some qc, some nm =>
+      match ty.toNat?, cl.toNat?, ttl.toNat?, rdl.toNat?, Driver.parseHex rd, Driver.parseHex rest with
+      | some ty, some cl, some ttl, some rdl, some rd, some rest =>
+        let m : Dns.DnsMessage := {
+          header := { id := id, properties := pr, qdcount := qd, ancount := an, nscount := ns, arcount := ar },
+          question := { qname := qn, qtype := qt, qclass := qc },
+          answer := { name := nm, recType := ty, cls := cl, ttl := ttl, rdlength := rdl, rdata := rd } }
+        let e := Dns.toMessage m
+        ((), s!"{Driver.toHex e} {dnsDec (e ++ rest)}")
+      | _, _, _, _, _, _ => ((), "bad-op")
+    | _, _, _, _, _, _, _, _, _, _ => ((), "bad-op")
+  | _ => ((), "bad-op")
+
+/-- full-stack DNS stream (`c14-dnssim`): `srv <datagram>` = what the real `DnsServer` answers,
+    `cli <name> <response>` = what `DnsClient::get_host_by_name(name)` returns for that response -/
+def dnsSimStep (v0 : Bool) (_ : Unit) (ws : List String) : Unit × String :=
+  match ws with
+  | ["case", id] => ((), s!"case {id}")
+  | ["srv", h] => match Driver.parseHex h with
+    | some bs => ((), match (if v0 then Dns.serverRespondV0 else Dns.serverRespond) bs with
+        | .ok (some r) => "reply " ++ Driver.toHex r
+        | .ok none => "noreply"
+        | .error e => errStr e)
+    | none => ((), "bad-op")
+  | ["cli", _, "noreply"] => ((), match (if v0 then Dns.clientNoAnswerV0 else Dns.clientNoAnswer) with
+      | .ok _ => "err"
+      | .error e => errStr e)
+  | ["cli", n, h] => match Driver.parseHex n, Driver.parseHex h with
+    | some name, some bs => ((), match (if v0 then Dns.clientHandleV0 else Dns.clientHandle) name bs with
+        | .ok (some ip) => s!"ip {ip}"
+        | .ok none => "err"
+        | .error e => errStr e)
+    | _, _ => ((), "bad-op")
+  | _ => ((), "bad-op")
+
+/-! DHCP -/
+def showDhcp (m : Dhcp.DhcpMessage) : String :=
+  sp [toString m.op, toString m.htype, toString m.hlen, toString m.hops, toString m.transactionId,
+      toString m.seconds, toString m.flags, toString m.clientIp, toString m.yourIp,
+      toString m.serverIp, toString m.routerIp, toString m.clientHardwareAddress,
+      toString m.msgType.toNat, Driver.toHex m.serverName, Driver.toHex m.bootFile]
+
+/-- which version of the DHCP code a stream is compared with: the current code, or (`-v0`
+    sub-commands) the code before the F-C14-1 / F-C14-3 fixes -/
+structure DhcpImpl where
+  fromBytes : Bytes → Except DecErr (Dhcp.DhcpMessage × Bytes)
+  clientDemux : Bytes → Except DecErr Dhcp.DemuxOut
+  serverDemux : Option Nat → Bytes → Except DecErr Dhcp.DemuxOut
+
+def dhcpCur : DhcpImpl := ⟨Dhcp.fromBytes, Dhcp.clientDemux, Dhcp.serverDemux⟩
+def dhcpV0 : DhcpImpl := ⟨Dhcp.fromBytesV0, Dhcp.clientDemuxV0, Dhcp.serverDemuxV0⟩
+
+def dhcpDec (I : DhcpImpl) (bs : Bytes) : String :=
+  match I.fromBytes bs with
+  | .ok (m, r) => s!"ok {showDhcp m} consumed={bs.length - r.length} reenc={Driver.toHex (Dhcp.toMessage m)}"
+  | .error e => errStr e
+
+def showDemux : Except DecErr Dhcp.DemuxOut → String
+  | .ok .errHeader => "none"   -- only the observable effect is compared: both error results
+  | .ok .errOther => "none"    -- mean "this datagram did nothing"
+  | .ok (.sent b) => "sent " ++ Driver.toHex b
+  | .ok (.assigned ip) => s!"assigned {ip}"
+  | .ok (.released ip) => s!"released {ip}"
+  | .error e => errStr e
+
+def mtOfNat (t : Nat) : Option Dhcp.MessageType :=
+  match Dhcp.msgTypeTryFrom t with
+  | .ok m => some m
+  | .error _ => none
+
+def dhcpStep (I : DhcpImpl) (_ : Unit) (ws : List String) : Unit × String :=
+  match ws with
+  | ["case", id] => ((), s!"case {id}")
+  | ["dec", h] => match Driver.parseHex h with
+    | some bs => ((), dhcpDec I bs)
+    | none => ((), "bad-op")
+  | ["demux", h] => match Driver.parseHex h with
+    | some bs => ((), showDemux (I.clientDemux bs))
+    | none => ((), "bad-op")
+  | ["sdemux", f, h, pool] => match Driver.parseHex h with
+    | some bs =>
+      -- returning the one address the pool already holds changes nothing observable
+      ((), match I.serverDemux (if f == "-" then none else f.toNat?) bs with
+        | .ok (.released ip) => if pool.toNat? == some ip then "none" else s!"released {ip}"
+        | r => showDemux r)
+    | none => ((), "bad-op")
+  | ["enc", op, ht, hl, hp, xid, secs, fl, ci, yi, si, ri, ch, mt, sn, bf, rest] =>
+    match op.toNat?, ht.toNat?, hl.toNat?, hp.toNat?, xid.toNat?, secs.toNat?, fl.toNat?, ci.toNat?,
+          yi.toNat?, si.toNat? with
+    | some op, some ht, some hl, some hp, some xid, some secs, some fl, some ci, some yi, some si =>
+      match ri.toNat?, ch.toNat?, mt.toNat?.bind mtOfNat, Driver.parseHex sn, Driver.parseHex bf,
+            Driver.parseHex rest with
+      | some ri, some ch, some mt, some sn, some bf, some rest =>
+        let m : Dhcp.DhcpMessage := {
+          op := op, htype := ht, hlen := hl, hops := hp,
+          transactionId := xid, seconds := secs, flags := fl, clientIp := ci, yourIp := yi,
+          serverIp := si, routerIp := ri, clientHardwareAddress := ch, serverName := sn,
+          bootFile := bf, msgType := mt }
+        let e := Dhcp.toMessage m
+        ((), s!"{Driver.toHex e} {dhcpDec I (e ++ rest)}")
+      | _, _, _, _, _, _ => ((), "bad-op")
+    | _, _, _, _, _, _, _, _, _, _ => ((), "bad-op")
+  | _ => ((), "bad-op")
+
 def dispatch (sub : String) (i o : IO.FS.Stream) : Option (IO Unit) :=
-  dispatchCodecA sub i o
+  if let some act := dispatchCodecA sub i o then some act
+  else if sub == "c14-arp" || sub == "c14-rt-arp" then some (Driver.loop i o arpStep ())
+  else if sub == "c14-dns" || sub == "c14-rt-dns" then some (Driver.loop i o (dnsStep false) ())
+  else if sub == "c14-dns-v0" then some (Driver.loop i o (dnsStep true) ())
+  else if sub == "c14-dnssim" then some (Driver.loop i o (dnsSimStep false) ())
+  else if sub == "c14-dnssim-v0" then some (Driver.loop i o (dnsSimStep true) ())
+  else if sub == "c14-dhcp" || sub == "c14-rt-dhcp" || sub == "c14-dhcps" then
+    some (Driver.loop i o (dhcpStep dhcpCur) ())
+  else if sub == "c14-dhcp-v0" || sub == "c14-dhcps-v0" then some (Driver.loop i o (dhcpStep dhcpV0) ())
+  else none
 
 end Driver.C14
